@@ -174,6 +174,10 @@ def sign_table(repo, rep, f):
     if last is None:
         rep.undecided('R-SIGN', key, w, 'no assignment of %s' % var)
         return
+    # plain assignments to other names right after the magnitude (`sin_diff = sin(long_diff)`) still belong to the straight-line prefix
+    while last + 1 < len(f.node.body) and isinstance(f.node.body[last + 1], ast.Assign) and len(f.node.body[last + 1].targets) == 1 \
+            and isinstance(f.node.body[last + 1].targets[0], ast.Name) and f.node.body[last + 1].targets[0].id != var:
+        last += 1
     tail = [st for st in f.node.body[last + 1:] if not isinstance(st, ast.Return)]
     ps = [p.name for p in f.params]
     p_lat, p_lon, p_cm = ps[2], ps[3], ps[4]
